@@ -112,6 +112,14 @@ CHECKS = {
                      "reported, VM empty afterwards, short run completes whatever preceded it; plus loop-cap ladder (5 caps x 7 bodies x scheduling)",
                 note="time is virtual (every clock query advances it), so the deadline arithmetic is explored deterministically; real-time behaviour of single long operator calls is out of scope",
                 technique="explicit-state exploration of run histories with an enumerated environment (virtual clock) on the real VM"),
+    "C12": dict(level="model_checking", ref="3/C12",
+                text="script sets (2-3 scripts over 5 shapes incl. sleeping and spawning ones) under every slice length {1,2,3,5,7,150} (guarded slice hook) "
+                     "and clock tick: invariants on the scheduler's own turn trace (hook events: between two consecutive turns of a script every other live "
+                     "script gets exactly one; no turn exceeds the slice), per-script order/results equal to running alone; sleep never resumes early; "
+                     "scriptDone false while the child still executes statements and true after it finished; a terminated child executes nothing more - "
+                     "for all child lengths x delays x slices",
+                note="states = scheduler turns of the real start loop; time virtual; `runnable throughout` is read off the trace (context alive before and after the interval)",
+                technique="exhaustive enumeration of small schedules (script sets x slice sizes x clock ticks) with trace invariants on the real scheduler"),
 }
 
 PENDING_REASON = "check not built yet in this round (planned, see DESIGN.md section 3)"
